@@ -49,6 +49,11 @@ def stages(tier, rng, only=None):
                                                                            flags=(1, 0), every=COSTLY), _nt))
     out.append(ac.stage("microscopic_penalties", PID, lambda: ac.scaled_cases(ext, algorun.ALL_CONFIGS, SCHEMES, 40,
                                                                               flags=(1, 0), every=COSTLY), _nt))
+    nosolver = [c for c in algorun.ALL_CONFIGS if c not in COSTLY and not c.startswith("ParCons")]
+    out.append(ac.stage("larger", PID, lambda: ac.cases([ac.larger_dataset(rng) for _ in range(60 if tier == "quick" else 600)],
+                                                        nosolver, SCHEMES, flags=(1, 0), namings=ac.NAMINGS3), _nt))
+    out.append(ac.stage("very_many_rankings", PID, lambda: ac.cases(
+        [ac.many_rankings_dataset(rng) for _ in range(8 if tier == "quick" else 60)], nosolver, SCHEMES, flags=(1,)), _nt))
     from .C11 import stages as kwik_stages
     for st in kwik_stages(tier, rng, prop=PID):
         if st.name in ("grid3x2", "grid4x2sample", "grid4x2", "random5"):
